@@ -229,6 +229,7 @@ type recApp struct {
 	writers      map[string]api.ShipConnectionDataWriterInterface
 	allowWaiting bool
 	echo         bool
+	lastVisible  []string
 }
 
 func (a *recApp) RemoteSKIConnected(ski string) { a.x.Ev("app-connected", a.node, ski, 0) }
@@ -244,10 +245,16 @@ func (a *recApp) SetupRemoteDevice(ski string, w api.ShipConnectionDataWriterInt
 }
 func (a *recApp) VisibleRemoteServicesUpdated(entries []api.RemoteService) {
 	var skis []string
+	var full []string
 	for _, e := range entries {
 		skis = append(skis, e.Ski)
+		full = append(full, fmt.Sprintf("%s/%s/%s/%s/%s/%s/%v", e.Ski, e.Identifier, e.Brand, e.Model, e.Type, e.Serial, e.Categories))
 	}
 	sort.Strings(skis)
+	sort.Strings(full)
+	a.mu.Lock()
+	a.lastVisible = full
+	a.mu.Unlock()
 	a.x.Ev("app-visible", a.node, strings.Join(skis, ","), len(entries))
 }
 func (a *recApp) ServiceShipIDUpdate(ski string, id string) {
